@@ -290,3 +290,45 @@ func headName(src string) string {
 	}
 	return "unknown"
 }
+
+// Every higher-order builtin x a callback that SHRINKS (or splices, or grows)
+// IN PLACE the very vector the builtin is walking: elpspath:?del! and a
+// ?set! range splice are the only in-place shrinkers.  Appended to the
+// (append-only) template table.
+func init() {
+	shrinkers := []string{
+		"(elpspath:?del! v 0)",
+		"(elpspath:?del! v -1)",
+		"(elpspath:?del! v '(range 0 %I))",
+		"(elpspath:?set! v '(range 0 2) (vector))",
+		"(elpspath:?set! v '(range 1 99) (vector %N))",
+		"(progn (elpspath:?del! v 0) (elpspath:?del! v 0) (append! v 7))",
+	}
+	walkers := []string{
+		"(set 'l (map 'list (lambda (x) @ x) v))",
+		"(set 'w (map 'vector (lambda (x) @ x) v))",
+		"(set 'l (select 'list (lambda (x) @ true) v))",
+		"(set 'w (reject 'vector (lambda (x) @ false) v))",
+		"(foldl (lambda (a x) @ a) 0 v)",
+		"(foldr (lambda (x a) @ a) 0 v)",
+		"(all? (lambda (x) @ true) v)",
+		"(any? (lambda (x) @ false) v)",
+		"(set 'l (zip 'list v (map 'list (lambda (x) @ x) v)))",
+		"(set 'w (stable-sort (lambda (a b) @ (< a b)) v))",
+		"(set 'w (stable-sort < v (lambda (x) @ x)))",
+		"(set 'l (insert-sorted 'list v (lambda (a b) @ (< a b)) %I))",
+		"(set 'w (insert-sorted 'vector v < %I (lambda (x) @ x)))",
+		"(search-sorted (length v) (lambda (i) @ (> i %I)))",
+		"(set 'l (map 'list (lambda (x) @ x) w))",
+		"(apply (lambda (&rest xs) @ (length xs)) v)",
+		"(unpack (lambda (&rest xs) @ (length xs)) v)",
+		"(set 'l (map 'list (lambda (x y) @ x) (zip 'list v v)))",
+		"(dotimes (i (length v)) @ (aref v 0))",
+		"(string:join (map 'list (lambda (x) @ \"s\") v) \",\")",
+	}
+	for _, w := range walkers {
+		for _, s := range shrinkers {
+			seqMutations = append(seqMutations, strings.Replace(w, "@", s, 1))
+		}
+	}
+}
